@@ -135,8 +135,8 @@ Definition serformat_conv_spec_stmt : Prop :=
    SerialisationFormat), all of them start <= end <= |src| on character
    boundaries *)
 Definition conv_error_spans_wellformed_stmt : Prop :=
-  forall fixed depth_fixed stack src required fuel h pos key kl v,
-    parse_header_gen fixed depth_fixed required stack fuel src = Done (HOk h pos) ->
+  forall fixed depth_fixed ctor_ws stack src required fuel h pos key kl v,
+    parse_header_gen fixed depth_fixed ctor_ws required stack fuel src = Done (HOk h pos) ->
     In (key, (kl, v)) h ->
     (forall locs, yacckind_try_from v = CvErr locs ->
        1 <= length locs <= 4 /\ Forall (span_wf src) locs) /\
@@ -147,7 +147,7 @@ Definition conv_error_spans_wellformed_stmt : Prop :=
    parsed section converts to an error with exactly that many spans *)
 Definition yacckind_error_of (src : list N) (locs : list span) : Prop :=
   exists h pos kl v,
-    parse_header_gen true true true None (fuel_for src) src = Done (HOk h pos) /\
+    parse_header_gen true true true true None (fuel_for src) src = Done (HOk h pos) /\
     hdr_get h S_yacckind = Some (kl, v) /\
     yacckind_try_from v = CvErr locs.
 
